@@ -254,6 +254,49 @@ def _split_ok(st):
     return True
 
 
+def reduce_to_loop(fn):
+    """x = reduce(lambda a, b: E, seq, init)   ->   x = init ; for b in seq: x = E[a := x]      (the definition of reduce);
+    without init and with a literal sequence the first element is the start value"""
+    did = False
+    k = 0
+    for body in _blocks(fn):
+        i = 0
+        while i < len(body):
+            st = body[i]
+            call = st.value if isinstance(st, (ast.Assign, ast.Return)) and isinstance(st.value, ast.Call) else None
+            if call is not None and dotted(call.func) in ("reduce", "functools.reduce") and not call.keywords and 2 <= len(call.args) <= 3 and isinstance(call.args[0], ast.Lambda):
+                lam = call.args[0]
+                la = lam.args
+                if len(la.args) == 2 and not (la.vararg or la.kwarg or la.kwonlyargs or la.defaults):
+                    acc_p, item_p = la.args[0].arg, la.args[1].arg
+                    seq = call.args[1]
+                    if len(call.args) == 3:
+                        init = call.args[2]
+                    elif isinstance(seq, (ast.List, ast.Tuple)) and seq.elts:
+                        init, seq = seq.elts[0], ast.Tuple(elts=seq.elts[1:], ctx=ast.Load())
+                    else:
+                        i += 1
+                        continue
+                    k += 1
+                    acc, item = "__r%d" % k, "__i%d" % k
+                    e = _Rename({acc_p: acc, item_p: item}).visit(clone_expr(lam.body))
+                    new = [ast.Assign(targets=[ast.Name(id=acc, ctx=ast.Store())], value=init, lineno=st.lineno),
+                           ast.For(target=ast.Name(id=item, ctx=ast.Store()), iter=seq, body=[ast.Assign(targets=[ast.Name(id=acc, ctx=ast.Store())], value=e, lineno=st.lineno)], orelse=[], lineno=st.lineno)]
+                    if isinstance(st, ast.Return):
+                        new.append(ast.Return(value=ast.Name(id=acc, ctx=ast.Load())))
+                    else:
+                        st.value = ast.Name(id=acc, ctx=ast.Load())
+                        new.append(st)
+                    body[i:i + 1] = new
+                    did = True
+                    i += len(new)
+                    continue
+            i += 1
+    if did:
+        ast.fix_missing_locations(fn)
+    return did
+
+
 def ifexp_to_if(fn):
     """x = A if c else B  ->  if c: x = A else: x = B ;  return A if c else B  ->  if c: return A else: return B"""
     changed = False
@@ -1377,6 +1420,12 @@ class _Spellings(ast.NodeTransformer):
     def visit_Assert(self, n):
         return n
 
+    def visit_For(self, n):
+        self.generic_visit(n)
+        if isinstance(n.iter, ast.List):
+            n.iter = ast.Tuple(elts=n.iter.elts, ctx=ast.Load())
+        return n
+
 
 class _SortKeywords(ast.NodeTransformer):
     """keyword arguments whose values are plain names / constants / attribute reads can be written in any order"""
@@ -1451,6 +1500,7 @@ def canonical(fn_node, helpers=None, method_helpers=None, sigs=None):
     drop_asserts(fn)
     fn = _Spellings().visit(fn)
     ast.fix_missing_locations(fn)
+    reduce_to_loop(fn)
     ifexp_to_if(fn)
     fn = clone(fn)
     push_returns(fn)
